@@ -185,7 +185,14 @@ LAST_OP_MAPS["unlock_"] = _reverse_unlock
 
 
 def _reverse_transpose(self, args, kwargs, out):
-    dim0, dim1 = args
+    if len(args) == 2:
+        dim0, dim1 = args
+    elif len(args) == 1:
+        dim0 = args[0]
+        dim1 = kwargs["dim1"]
+    else:
+        dim0 = kwargs["dim0"]
+        dim1 = kwargs["dim1"]
     if not out.is_locked:
         return out.update(self.transpose(dim0, dim1), inplace=False)
     else:
@@ -196,7 +203,7 @@ LAST_OP_MAPS["transpose"] = _reverse_transpose
 
 
 def _reverse_flatten_keys(self, args, kwargs, out):
-    sep = args[0] if args else "."
+    sep = args[0] if args else kwargs.get("separator", ".")
     if not out.is_locked:
         return out.update(self.unflatten_keys(sep), inplace=False)
     else:
@@ -207,7 +214,7 @@ LAST_OP_MAPS["flatten_keys"] = _reverse_flatten_keys
 
 
 def _reverse_unflatten_keys(self, args, kwargs, out):
-    sep = args[0] if args else "."
+    sep = args[0] if args else kwargs.get("separator", ".")
     if not out.is_locked:
         return out.update(self.flatten_keys(sep), inplace=False)
     else:
